@@ -2,8 +2,13 @@ check('C02', 'proof',
       'Coq theorems T02_*: WF (qtotal shape, row shape, NO duplicate _qdata row, CHARGE RULE for every stored block, TRUTHFUL _qdata_sorted claim) is closed under '
       'transpose, conj, scalar multiplication and addition (result of the merge is strictly sorted, hence its claim is truthful, provided the operands\' claims were); '
       'isort_qdata is only correct for a truthful claim; every block produced by outer and by the block pairing of tensordot obeys the charge rule with '
-      'qtotal = make_valid(qtotal_a + qtotal_b) for contractible legs (any rank / number of blocks / charges); make_valid laws; documented qtotal of the modelled operations. '
-      'NOT proved: the sortedness claim of outer, WF for all other operations, LegCharge.sorted/bunched flags - these are checked by the oracle only: after EVERY step of random '
+      'qtotal = make_valid(qtotal_a + qtotal_b) for contractible legs (any rank / number of blocks / charges); WF is closed under outer (T02_wf_outer: no duplicate row in the '
+      'grid of block pairs and the claim _qdata_sorted = a.sorted and b.sorted is truthful for the grid order used) and under tensordot (T02_wf_tensordot, for the value model '
+      'Model/TensorDot.v: one block per distinct row of the pairing, rows sorted, claim True as the worker sets it; the worker\'s loop order itself is not modelled); '
+      'take_slice on one axis (T02_wf_take_slice / T02_qtotal_take_slice: qtotal reduced by the charge of the removed index, keeping _qdata_sorted is correct because removing '
+      'a constant column keeps the kept rows distinct and lexsorted; Model/TakeSlice.v is written after the source, NOT correspondence-checked); '
+      'make_valid laws; documented qtotal of the modelled operations. '
+      'NOT proved: WF for all other operations, LegCharge.sorted/bunched flags - these are checked by the oracle only: after EVERY step of random '
       'histories (in-place methods, shallow copies, element assignment) on EVERY live object the object\'s own test_sanity() plus an independent recomputation '
       '(duplicate rows, charge rule, shapes/dtypes, lexsort vs claim, contiguity, leg flags vs is_sorted/is_bunched/is_blocked, documented qtotal), pure Python at TENPY_OPTIMIZE=0 '
       'and the rebuilt extension at the default level; leg-level programs over LegCharge/LegPipe methods; the boolean WF of the Coq model is evaluated on the storage the '
